@@ -134,13 +134,15 @@ func (c *queueClass_[V]) Fork(
 	}
 
 	// Connect up the input queue to the output queues in a separate go-routine.
+	// The go-routine works on its own snapshot of the output queues since the
+	// returned sequence belongs to the caller.
+	var iterator = outputs.GetIterator()
 	group.Add(1)
 	go func() {
 		// Make sure the wait group is decremented on termination.
 		defer group.Done()
 
 		// Write each value read from the input queue to each output queue.
-		var iterator = outputs.GetIterator()
 		for {
 			// Read from the input queue.
 			var value, ok = input.RemoveHead() // Will block when empty.
@@ -186,13 +188,15 @@ func (c *queueClass_[V]) Split(
 	}
 
 	// Connect up the input queue to the output queues.
+	// The go-routine works on its own snapshot of the output queues since the
+	// returned sequence belongs to the caller.
+	var iterator = outputs.GetIterator()
 	group.Add(1)
 	go func() {
 		// Make sure the wait group is decremented on termination.
 		defer group.Done()
 
 		// Take turns reading from the input queue and writing to each output queue.
-		var iterator = outputs.GetIterator()
 		for {
 			// Read from the input queue.
 			var value, ok = input.RemoveHead() // Will block when empty.
